@@ -15,6 +15,8 @@ structure DSt where
   reg : List Entry
   pre : Option (List Entry)   -- registry before the last restart, while no reg/dereg followed
   spec : List Entry           -- Spec registry: every key holds its last registration
+  disk : List Entry           -- what settings.json holds (differs from `reg` after a torn save)
+  torn : Option Name          -- pattern whose save was torn since the last successful save
 
 def lookupOf (s : String) : Lookup :=
   if s == "iteratesMap" then .iteratesMap else if s == "ranked" then .ranked else .unknown
@@ -35,17 +37,34 @@ def results (cfg : Cfg) (reg : List Entry) (n : Name) : List String :=
 
 def step (d : DSt) (line : String) : DSt × String :=
   match line.splitOn " " with
-  | ["case", _] => ({ d with reg := [], pre := none, spec := [] }, line)
+  | ["case", _] => ({ d with reg := [], pre := none, spec := [], disk := [], torn := none }, line)
   | ["reg", s, r, w, m, idle, wi, size] =>
     match idle.toInt?, wi.toInt?, size.toInt? with
     | some i, some v, some z =>
       if m != "M" && m != "P" then (d, "bad-op") else
       let p : Name := ⟨bytesOf s, bytesOf r, bytesOf w⟩
-      ({ d with reg := register d.cfg d.reg p (m == "M") i v z, pre := none,
+      let reg' := register d.cfg d.reg p (m == "M") i v z
+      -- the early return writes nothing; otherwise the whole registry is saved (which also repairs a torn file)
+      let saved := !(m == "P" && unchanged d.cfg d.reg (canon p) i v z)
+      ({ d with reg := reg', pre := none, disk := if saved then reg' else d.disk, torn := if saved then none else d.torn,
+                spec := d.spec.filter (fun e => !hasKey (canon p) e) ++ [entryOf p (m == "M") i v z] }, "ok")
+    | _, _, _ => (d, "bad-op")
+  | ["regtorn", s, r, w, m, idle, wi, size] =>
+    match idle.toInt?, wi.toInt?, size.toInt? with
+    | some i, some v, some z =>
+      if m != "M" && m != "P" then (d, "bad-op") else
+      let p : Name := ⟨bytesOf s, bytesOf r, bytesOf w⟩
+      let reg' := register d.cfg d.reg p (m == "M") i v z
+      let saved := !(m == "P" && unchanged d.cfg d.reg (canon p) i v z)
+      -- the runtime map has the pattern; the file keeps its old content (atomic replace) or is truncated (in place)
+      ({ d with reg := reg', pre := none,
+                disk := if !saved then d.disk else if d.cfg.saveAtomic then d.disk else [],
+                torn := if saved then some p else d.torn,
                 spec := d.spec.filter (fun e => !hasKey (canon p) e) ++ [entryOf p (m == "M") i v z] }, "ok")
     | _, _, _ => (d, "bad-op")
   | ["dereg", s, r, w] =>
-    ({ d with reg := deregister d.reg ⟨bytesOf s, bytesOf r, bytesOf w⟩, pre := none,
+    let reg' := deregister d.reg ⟨bytesOf s, bytesOf r, bytesOf w⟩
+    ({ d with reg := reg', pre := none, disk := reg', torn := none,
               spec := deregister d.spec ⟨bytesOf s, bytesOf r, bytesOf w⟩ }, "ok")
   | ["get", s, r, w] =>
     let n : Name := ⟨bytesOf s, bytesOf r, bytesOf w⟩
@@ -53,14 +72,23 @@ def step (d : DSt) (line : String) : DSt × String :=
     let rs := results d.cfg d.reg n
     let f1 := if (ps.map (·.f)).eraseDups.length > 1 then "\t#F:C21-map-order-lookup" else ""
     let f2 := match d.pre with
-      | some old => if results d.cfg old n != rs then "\t#F:C21-restart-loses-field" else ""
+      | some old => if results d.cfg old n != rs then
+          (if d.cfg.saveAtomic then "\t#F:C21-restart-loses-field" else "\t#F:C21-settings-save-not-atomic") else ""
       | none => ""
     -- the winning entry is not what was last registered for its pattern
     let f3 := if ps.any (fun e => e != defaultEntry n && !(d.spec.contains e)) then "\t#F:C21-reregistration-ignored" else ""
     (d, "res " ++ " ".intercalate rs ++ f1 ++ f2 ++ f3)
   | ["restart"] =>
     let old := match d.pre with | some o => o | none => d.reg
-    ({ d with reg := reload d.cfg d.reg, pre := some old }, "ok")
+    let reg' := reload d.cfg d.disk
+    -- after a torn save the Spec keeps what was durably saved before it; the torn pattern itself may be absent
+    -- the torn pattern itself is whatever the file durably holds for it (its older registration, or nothing)
+    let durable (p : Name) : List Entry := reg'.filter (hasKey (canon p))
+    let spec' := match d.torn with
+      | some p => deregister d.spec p ++ durable p
+      | none => d.spec
+    let old' := match d.torn with | some p => deregister old p ++ durable p | none => old
+    ({ d with reg := reg', pre := some old', spec := spec', disk := reg', torn := none }, "ok")
   | _ => (d, "bad-op")
 
 def run (args : List String) : IO UInt32 := do
@@ -68,8 +96,8 @@ def run (args : List String) : IO UInt32 := do
   let cfg : Cfg :=
     ⟨lookupOf (arg kv "lookup"), cmpOf (arg kv "cmp"),
      ((arg kv "wRealm").toInt?).getD 0, ((arg kv "wSwamp").toInt?).getD 0,
-     yes (arg kv "persistsInMem"), yes (arg kv "persistsIdle"), yes (arg kv "persistsWi"), yes (arg kv "persistsSize"), yes (arg kv "unchangedChecksType")⟩
-  lineLoop step ⟨cfg, [], none, []⟩
+     yes (arg kv "persistsInMem"), yes (arg kv "persistsIdle"), yes (arg kv "persistsWi"), yes (arg kv "persistsSize"), yes (arg kv "unchangedChecksType"), yes (arg kv "saveAtomic")⟩
+  lineLoop step ⟨cfg, [], none, [], [], none⟩
   return 0
 
 end Driver.C21
